@@ -220,7 +220,51 @@ func (e *Engine) registerIntrinsics2() {
 	}
 
 	// proto.Size: an opaque small size (only compared with the batcher's thresholds)
-	in["google.golang.org/protobuf/proto.Size"] = func(c *PathCtx, fr *frame, args []Value) Value { return mkBV(64, 100) }
+	in["google.golang.org/protobuf/proto.Size"] = func(c *PathCtx, fr *frame, args []Value) Value {
+		// a size estimate that grows with the payload: 16 + 6 bytes per scalar leaf (elements of
+		// repeated fields included). Harnesses that compare sizes with thresholds keep their
+		// messages far from the threshold on either side.
+		n := 0
+		seen := map[*Value]bool{}
+		var walk func(v Value, d int)
+		walk = func(v Value, d int) {
+			if d > 12 {
+				return
+			}
+			switch x := v.(type) {
+			case *Term:
+				n++
+			case Iface:
+				walk(x.V, d+1)
+			case *Value:
+				if x != nil && !seen[x] {
+					seen[x] = true
+					walk(*x, d+1)
+				}
+			case Struct:
+				for _, f := range x {
+					walk(f, d+1)
+				}
+			case Array:
+				for _, f := range x {
+					walk(f, d+1)
+				}
+			case []Value:
+				for _, f := range x {
+					walk(f, d+1)
+				}
+			case *Map:
+				if x != nil {
+					for i := range x.keys {
+						walk(x.keys[i], d+1)
+						walk(x.vals[i], d+1)
+					}
+				}
+			}
+		}
+		walk(args[0], 0)
+		return mkBV(64, uint64(16+6*n))
+	}
 
 	// ---------------- encoding/json Encoder (same opaque snapshot as Marshal) ----------------
 	newEncoder := func(c *PathCtx, fr *frame, args []Value) Value {
